@@ -115,17 +115,29 @@ def _chunk_blocks(blocks, window):
 
 
 def _cds_blocks(blocks, cds):
-    a, b = cds
-    return [(max(s, a), min(e, b)) for s, e in blocks if min(e, b) > max(s, a)]
+    """cds = [a, b] or [a, b, nest]: the exon blocks clipped to [a, b); with nest, one more CDS block nested inside the longest of them
+    and listed LAST among blocks with the same start order (overlapping CDS blocks model a -1 frameshift; bounds are min / max)."""
+    a, b = cds[0], cds[1]
+    out = [(max(s, a), min(e, b)) for s, e in blocks if min(e, b) > max(s, a)]
+    if len(cds) > 2 and cds[2]:
+        s0, e0 = max(out, key=lambda x: x[1] - x[0])
+        if e0 - s0 >= 3:
+            out.append((s0 + 1, e0 - 1))
+            out.sort()
+    return out
 
 
-def _frames(cds_blocks, strand):
-    """Frame of each CDS block (plus-strand block order) for an uninterrupted reading frame starting at 0."""
+def _frames(cds_blocks, strand, off=0):
+    """Frame of each CDS block (plus-strand block order) for a reading frame that skips `off` bases of the 5' block."""
     order = list(reversed(cds_blocks)) if strand == "-" else list(cds_blocks)
     fr, cum = [], 0
-    for s, e in order:
-        fr.append(cum % 3)
-        cum += e - s
+    for k, (s, e) in enumerate(order):
+        if k == 0:
+            fr.append(off % 3)
+            cum = max(0, e - s - off)
+        else:
+            fr.append(cum % 3)
+            cum += e - s
     return list(reversed(fr)) if strand == "-" else fr
 
 
@@ -179,7 +191,7 @@ def cases(spec, ctx):
             if sc["CDS"] is not None and len(choices) > sc["CDS"]:
                 choices = rng.sample(choices, sc["CDS"])
             for j, cds in enumerate(choices):
-                yield dict(common, cls="tx", cds=list(cds), ids=_ids("tx", k + j), name0=k + j)
+                yield dict(common, cls="tx", cds=list(cds), ids=_ids("tx", k + j), name0=k + j, off=(k + j) % 3)
     thorough = ctx.tier == "thorough"
     nall = sc["NALL"] // n + 1
     for r in range(sc["NR"] // n + 1):
@@ -199,7 +211,7 @@ def cases(spec, ctx):
             pos = _covered(blocks)
             a = rng.choice(pos)
             b = rng.choice([p for p in pos if p >= a]) + 1
-            cds = [a, b]
+            cds = [a, b, rng.random() < 0.15]
         s0, e0 = blocks[0][0], blocks[-1][1]
         if r < nall:  # every window that contains the interval, on a 40-base chromosome
             windows = "containing"
@@ -213,7 +225,7 @@ def cases(spec, ctx):
         yield {"kind": "random", "cls": cls, "blocks": blocks, "strand": strand, "cds": cds, "genome": length, "windows": windows,
                "minus_windows": [[rng.randint(0, s0), rng.randint(e0, length), "-"]],
                "seqname": rng.choice(["chr1", "NC_000913.3", None]), "score": rng.randint(0, 1000),
-               "rgb": [rng.randint(0, 255) for _ in range(3)], "ids": _ids(cls, r), "name0": rng.randrange(100)}
+               "rgb": [rng.randint(0, 255) for _ in range(3)], "ids": _ids(cls, r), "name0": rng.randrange(100), "off": rng.choice([0, 0, 1, 2])}
 
 
 # ------------------------------------------------------------------------------------------------------------- running
@@ -228,7 +240,7 @@ def _build(case, blocks, parent):
     if case["cds"] is not None:
         cb = _cds_blocks(blocks, case["cds"])
         kw = {"cds_starts": [b[0] for b in cb], "cds_ends": [b[1] for b in cb],
-              "cds_frames": [CDSFrame(f) for f in _frames(cb, case["strand"])]}
+              "cds_frames": [CDSFrame(f) for f in _frames(cb, case["strand"], case.get("off", 0))]}
     return TranscriptInterval(starts, ends, st, sequence_name=case["seqname"], parent_or_seq_chunk_parent=parent, **case["ids"], **kw)
 
 
@@ -293,12 +305,12 @@ def _one_parent(case, ctx, blocks, window, pidx):
         mode = "chromosome" if chrom_mode else "chunk-relative"
         if chrom_mode or not chunk:
             want_blocks = [tuple(b) for b in blocks]
-            want_cds = tuple(cds) if cds else None
+            want_cds = tuple(cds[:2]) if cds else None
             cds_inside = True
         else:
             want_blocks = _chunk_blocks(blocks, window)
             cb = _chunk_blocks(_cds_blocks(blocks, cds), window) if cds else []
-            want_cds = (cb[0][0], cb[-1][1]) if cb else None
+            want_cds = (min(x[0] for x in cb), max(x[1] for x in cb)) if cb else None
             cds_inside = bool(cb) or not cds
         cds_in_window = (not chunk) or containing or not cds or bool(_chunk_blocks(_cds_blocks(blocks, cds), window))
         key = (cls, mode, pk)
